@@ -394,6 +394,8 @@ pub enum DestFx {
     /// write() accepts only k bytes
     Short(u64),
     Interrupted,
+    /// write() returns Ok(0): the destination is full
+    Zero,
     /// hard error with this raw os error
     Error(i32),
     Panic,
